@@ -37,7 +37,7 @@ structure D where
   cancelledQueued : List Nat := []     -- tasks cancelled while still queued
   accepted : List Nat := []
   startedImpl : List Nat := []
-  parkedCancel : Bool := false          -- a cancel hit a task parked inside a worker (known finding territory)
+  parkedCancel : Bool := false          -- a cancel hit a task parked inside a worker
   cancelTargets : List Nat := []        -- tasks some `cancel` op named
   noWait : List Nat := []               -- tasks whose result was declared unwanted
   settled : Bool := false               -- the wind-down marker has passed
@@ -90,7 +90,7 @@ def stepOp (d : D) (o io : String) : D :=
   let f11 : List (String × String) :=
     (if irun > maxSeen then [("C11", s!"[over-max] after `{o}` running size {irun} exceeds the maximum size {maxSeen}")] else []) ++
     -- exactness against the model's live-worker count (valid while model and implementation agree)
-    (let live := (p'.workers.filter (·.alive)).length - p'.dropped.length
+    (let live := (p'.workers.filter (·.alive)).length
      if irun ≠ live then
        (if p'.dropped.isEmpty then [("C11", s!"[running-mismatch] after `{o}` running size {irun} but {live} workers are alive")]
         else [("C11", s!"[running-leak-after-parked-cancel] after `{o}` running size {irun} but {live} workers are alive ({p'.dropped.length} dropped by a cancel while parked)")])
@@ -102,7 +102,7 @@ def stepOp (d : D) (o io : String) : D :=
      if !inest.isEmpty ∧ ((words o).head? == some "stop" ∨ d.lastSt ≠ "R") then
        [("C12", s!"[accepted-while-stopping] during `{o}` (pool state {if (words o).head? == some "stop" then "S" else d.lastSt}) a task's own submission was accepted: {inest}")] else []) ++
     (if (words o).head? == some "stop" ∧ (words io).head? == some "ok" ∧ (irun ≠ 0 ∨ ist ≠ "X") then [("C12", s!"[stop-ok-unfinished] stop reported success with running={irun} state={ist}")] else []) ++
-    (if (words o).head? == some "stop" ∧ (words io).head? == some "ok" ∧ !(d.accepted.all (fun t => d.startedImpl.contains t ∨ d.cancelledQueued.contains t)) ∧ !parked
+    (if (words o).head? == some "stop" ∧ (words io).head? == some "ok" ∧ !(d.accepted.all (fun t => d.startedImpl.contains t ∨ d.cancelledQueued.contains t))
        then [("C12", s!"[stop-ok-task-not-run] stop reported success but accepted tasks {d.accepted.filter (fun t => !(d.startedImpl.contains t ∨ d.cancelledQueued.contains t))} never ran")] else [])
   let f13 : List (String × String) :=
     ((istarted.filter (fun t => d.cancelledQueued.contains t)).map (fun t => ("C13", s!"[cancelled-task-ran] task {t} was cancelled before it started but ran"))) ++
@@ -113,10 +113,10 @@ def stepOp (d : D) (o io : String) : D :=
        (if d.cancelledQueued.contains k ∧ !(d.p.tasks.vals.contains k) ∧ (words io).head? == some "timeout" ∧ mo ≠ "timeout" then
          [("C13", s!"[waiter-unsettled] waiter of the cancelled task {k} is still blocked")] else []) ++
        -- after the wind-down, a task nobody cancelled (and that does not cancel itself) has a result
-       (if d.settled ∧ d.accepted.contains k ∧ !(d.cancelTargets.contains k) ∧ !(d.noWait.contains k) ∧ !parked ∧
+       (if d.settled ∧ d.accepted.contains k ∧ !(d.cancelTargets.contains k) ∧ !(d.noWait.contains k) ∧
            !((d.p.progs.getD k []).contains .cancelSelf) ∧ (words io).head? == some "timeout" ∧ mo ≠ "timeout" then
          [("C13", s!"[uncancelled-task-lost] task {k} was never cancelled and everything had time to finish, but it has no result (its waiter timed out)")] else []) ++
-       (if d.p.droppedTasks.contains k ∧ !((d.p.progs.getD k []).contains .cancelSelf) ∧ (words io).head? == some "timeout" then
+       (if d.p.droppedTasks.contains k ∧ !((d.p.progs.getD k []).contains .cancelSelf) ∧ !(d.noWait.contains k) ∧ (words io).head? == some "timeout" ∧ mo ≠ "timeout" then
          [("C13", s!"[waiter-unsettled-after-parked-cancel] task {k} was cancelled while suspended inside its worker; its waiter is never settled")] else [])
      | _ => [])
   let cq := match words o with
